@@ -321,10 +321,123 @@ class Scenario:
                     return v
             e2 = subst(e, table)
             v = CW.eval_cond(self.repo, e2, env)
+            if v is None:
+                # the condition is the call of a predicate method of the same class (`self._tag_is_implicit()`): its value
+                # in this scenario is the value its own code returns under the same environment and table
+                v = self._predicate_value(e, env, table, hook, 0)
             if v is None and must and is_pure_in(e2, must) and any(isinstance(x, ast.Name) and x.id in must for x in ast.walk(e2)):
                 raise AnalysisError('%s: the condition `%s` is not decidable%s' % (self.f.qualname, norm(node.ast)[:80], what))
             return v
         return decide
+
+    # ---- predicate methods: a condition that is computed by a side-effect-free method of the same class ---------------
+
+    def _predicate(self, name, _depth=0):
+        """the method `name` of the analysed function's class when it is a *predicate*: branches and returns only, reading
+        state and binding plain locals, calling nothing but str predicates / len / ord / isinstance and other predicates of
+        the class.  Evaluating such a method changes nothing, so its result can stand for the call.  None otherwise."""
+        cache = self.__dict__.setdefault('_preds', {})
+        if name in cache:
+            return cache[name]
+        cache[name] = None              # a predicate that calls itself is not one
+        cls = getattr(self.f, 'cls', None)
+        found = self.repo.lookup(cls, name) if cls is not None else None
+        g = found[1] if found is not None and isinstance(found[1], FuncInfo) else None
+        if g is None or _depth > 3 or g.is_generator or g.decorators or not g.params \
+                or g.node.args.vararg or g.node.args.kwarg or g.node.args.kwonlyargs or isinstance(g.node, ast.AsyncFunctionDef):
+            return None
+        for x in walk_function(g.node):
+            if isinstance(x, ast.stmt):
+                if isinstance(x, (ast.If, ast.Return, ast.Pass)):
+                    continue
+                if isinstance(x, ast.Expr) and isinstance(x.value, ast.Constant):
+                    continue
+                if isinstance(x, ast.Assign) and all(isinstance(t, ast.Name) for t in x.targets):
+                    continue
+                return None
+            if isinstance(x, (ast.NamedExpr, ast.Yield, ast.YieldFrom, ast.Await, ast.Starred)):
+                return None
+            if isinstance(x, ast.Call):
+                fn = x.func
+                if isinstance(fn, ast.Name) and fn.id in ('len', 'ord', 'isinstance'):
+                    continue
+                if isinstance(fn, ast.Attribute) and fn.attr in CW.CONST_STR_METHODS:
+                    continue
+                if isinstance(fn, ast.Attribute) and isinstance(fn.value, ast.Name) and fn.value.id == g.params[0] \
+                        and self._predicate(fn.attr, _depth + 1) is not None:
+                    continue
+                return None
+        cache[name] = g
+        return g
+
+    def _predicate_value(self, e, env, table, hook, depth):
+        """three-valued truth of `self.<predicate>(args)` (possibly negated) under the scenario: the predicate's own CFG is
+        explored with the same environment / table / hook, its parameters standing for the argument expressions; the call is
+        decided when every return it can reach has the same decided truth value."""
+        inner, pos = A.strip_not(e)
+        if depth > 3 or not self.f.params:
+            return None
+        if not (isinstance(inner, ast.Call) and isinstance(inner.func, ast.Attribute) and isinstance(inner.func.value, ast.Name)
+                and inner.func.value.id == self.f.params[0] and not inner.keywords):
+            return None
+        if any(isinstance(y, (ast.Call, ast.NamedExpr, ast.Starred, ast.Await)) for a in inner.args for y in ast.walk(a)):
+            return None
+        g = self._predicate(inner.func.attr)
+        if g is None or len(inner.args) > len(g.params) - 1:
+            return None
+        bind = {g.params[0]: inner.func.value}
+        bind.update(zip(g.params[1:], inner.args))
+        defaults = g.defaults()
+        for p in g.params[1:]:
+            if p not in bind:
+                if p not in defaults:
+                    return None
+                bind[p] = defaults[p]
+        subs = self.__dict__.setdefault('_pred_scen', {})
+        sub = subs.get(g.qualname)
+        if sub is None:
+            sub = subs[g.qualname] = Scenario(self.repo, g)
+            sub._locals = {nm for n in sub.cfg.nodes for nm in Flow.bound_names(n)}
+
+        def inst(node, expr):
+            """an expression of the predicate at `node`, in terms of the caller: locals put back, parameters replaced"""
+            x = sub.flow.deref(node, expr)
+            for y in ast.walk(x):
+                if isinstance(y, ast.Name) and (y.id in sub._locals or (y.id not in bind and y.id in (env or {}))):
+                    return None
+
+            def fn(y):
+                if isinstance(y, ast.Name) and isinstance(y.ctx, ast.Load) and y.id in bind:
+                    return rebuild(bind[y.id])
+                return None
+            return rebuild(x, fn)
+
+        def atom(a):
+            if hook is not None:
+                v = hook(a)
+                if v is not None:
+                    return v
+            v = CW.eval_cond(self.repo, subst(a, table), env or {})
+            if v is None:
+                v = self._predicate_value(a, env, table, hook, depth + 1)
+            return v
+
+        def value(node, expr):
+            x = inst(node, expr)
+            return None if x is None else A.eval3(x, atom)
+        r = reach(sub.cfg, lambda n: value(n, n.ast))
+        vals = set()
+        for n in r:
+            if n.kind == 'return':
+                vals.add(False if n.ast.value is None else value(n, n.ast.value))
+        if sub.cfg.exit_fall in r:
+            vals.add(False)
+        if len(vals) != 1:
+            return None
+        v = vals.pop()
+        if v is None:
+            return None
+        return v if pos else (not v)
 
     def _tracked(self):
         """locals that are assigned a literal somewhere and are never bound by a loop / with / handler: followed per path."""
